@@ -19,12 +19,15 @@ NONE == -1
 RECURSIVE NonDecr(_, _)
 NonDecr(len, lo) == IF len = 0 THEN {<<>>} ELSE UNION {{<<x>> \o r : r \in NonDecr(len - 1, x)} : x \in lo..MaxT}
 SortSet(S) == [r \in 1..Cardinality(S) |-> CHOOSE x \in S : Cardinality({y \in S : y < x}) = r - 1]
+Rev(t) == [i \in 1..Len(t) |-> t[Len(t) + 1 - i]]
 Grids == {SortSet(g) : g \in {g \in SUBSET (0..(MaxT + 1)) : 0 \in g /\ (MaxT + 1) \in g}}
 Init == times = <<>> /\ clu = <<>> /\ bounds = <<>> /\ nkept = 0 /\ nreq = 0 /\ req = <<>>
         /\ useChunks = FALSE /\ subset = {} /\ result = <<>> /\ pc = "pick"
 \* the inputs are picked in two stages so that TLC's workers share the enumeration
 Pick == /\ pc = "pick"
-        /\ \E len \in 1..MaxSpikes : times' \in NonDecr(len, 0) /\ clu' \in [1..len -> CluIds]
+        \* spike times need not be monotonic (batch-wise sorted output): every non-decreasing train and its reversal
+        /\ \E len \in 1..MaxSpikes : /\ times' \in NonDecr(len, 0) \cup {Rev(t) : t \in NonDecr(len, 0)}
+                                     /\ clu' \in [1..len -> CluIds]
         /\ pc' = "pick2" /\ UNCHANGED <<bounds, nkept, nreq, req, useChunks, subset, result>>
 Pick2 == /\ pc = "pick2"
          /\ bounds' \in Grids /\ nkept' \in KeptSet
@@ -104,6 +107,7 @@ CaseRecord == [times |-> times, clu |-> clu, bounds |-> bounds, nkept |-> nkept,
 EmitCase == pc = "call" => Emit(CaseRecord)
 
 NReqDef == {NONE, 0, 1, 2}
-ReqQ == {<<4>>, <<4, 0>>, <<>>, <<0, 7>>}
-ReqT == {<<4>>, <<4, 0>>, <<0, 4, 1>>, <<>>, <<0, 7>>, <<7>>}
+\* (a cluster named twice is still one requested cluster)
+ReqQ == {<<4>>, <<4, 0>>, <<>>, <<0, 7>>, <<4, 4>>}
+ReqT == {<<4>>, <<4, 0>>, <<0, 4, 1>>, <<>>, <<0, 7>>, <<7>>, <<4, 4>>, <<0, 4, 0>>}
 ====
